@@ -101,7 +101,7 @@ pub fn property() -> Property {
             SubCheck {
                 name: "prefix-equality",
                 rule: "G-MAP (all four modes + osu converted to taiko/catch/mania, sizes 0-3 emphasised, <=40 objects, first/last kind uniform) x G-DIFF (mods in 5 representations, clock rates in [0.5,2], overrides; no preset passed_objects). Oracle: drain the gradual calculator with next(); count == len() at creation; value i same-value-equal (all fields) to passed_objects(i) one-shot; last == unlimited one-shot. Non-trivial: >=3 values and (non-default settings or first object not a circle or convert or a gap >=5s). Distinct = hash of (map spec, settings, target).",
-                quick: 6000,
+                quick: 30_000,
                 thorough: 80_000,
                 tape_len: 1400,
                 f: case_small,
@@ -110,7 +110,7 @@ pub fn property() -> Property {
             SubCheck {
                 name: "prefix-equality-wide",
                 rule: "same oracle; maps up to 120 objects and the wide settings domain (clock rate 0.01..100 and out-of-range values that get clamped, overrides in [-20,20] and beyond).",
-                quick: 600,
+                quick: 3000,
                 thorough: 12_000,
                 tape_len: 4000,
                 f: case_wide,
